@@ -208,6 +208,7 @@ class Env:
 
             class UnhashableFactory:
                 __hash__ = None
+                plain = staticmethod(inner2)
 
                 def __eq__(self, other):
                     return self is other
@@ -361,6 +362,8 @@ class Env:
                 if types:
                     kw["types"] = ty_obj(types[0]) if (op.get("single") and len(types) == 1) \
                         else [ty_obj(t) for t in types]
+                if not types and hasattr(f, "plain"):
+                    f = f.plain      # without `types` the return annotation is consulted: that needs a function
                 ctx.add_resource_factory(f, op["name"], **kw)
                 if isinstance(kw.get("types"), list):
                     # the caller's list is the caller's: it is emptied (and reused) right after the call
